@@ -83,6 +83,66 @@ def expected(ctx, L):
     return out
 
 
+def seek_then_modify(ctx):
+    """a seek that is hit by ONE transient device read failure and still reports success (on OFS: through the fallback walk along the
+    data blocks) must leave a handle that is as good as the fault-free one: the file is then modified at that position - appended to at the
+    end, overwritten inside - closed, and read back through a new handle; everything must equal the fault-free run of the same calls.
+    Sizes sit at block and table edges (size = k*bs + 1: the walk to size - 1 ends exactly at a block boundary)."""
+    rng = ctx.rng
+    F = hexs(b"seekfile")
+    flavs = [0, 4, 1] if ctx.tier == "quick" else gen.FLAVOURS
+    for flav in flavs:
+        bs = 512 if flav & 1 else 488
+        sizes = [bs + 1, 73 * bs + 1, 74 * bs] if ctx.tier == "quick" else \
+                [k * bs + d for k in (1, 2, 71, 72, 73, 74, 144, 145) for d in (0, 1, 2, bs - 1)]
+        for size in sizes:
+            for (target, what) in ((size + 7, "append at the end"), (size - 1, "overwrite the last byte"), ((size // bs) * bs, "overwrite at the last block boundary")):
+                if target < 0:
+                    continue
+                base = gen.dev_create("DD", flav) + ["mountdev 0", "mount 0 0", "open 0 - %s w" % F, "write 0 7 %d" % size, "close 0"]
+                g = ["open 1 - %s rw" % F, "seek 1 %d" % target, "write 1 9 3", "close 1", "open 5 - %s r" % F, "read 5 %d" % (size + 20), "close 5"]
+                L0 = base + g + ["umount", "umountdev"]
+                ios = count_ios(ctx, L0, len(base), 2)
+                rc0, out0, err0, wd0 = common.run_script(ctx, "\n".join(L0) + "\n")
+                res0 = common.parse_results(out0)
+                want = (res0.get(len(base) + 6) or ["?"])[-1]
+                wseek = (res0.get(len(base) + 2) or ["?"])[-1]
+                nreads = ios[1][0] if len(ios) > 1 else 0
+                jobs = []
+                for k in range(1, nreads + 1):
+                    L = base + [g[0], "fault rd %d" % k, g[1], "fault clear"] + g[2:] + ["umount", "umountdev"]
+                    jobs.append((k, L))
+
+                def one(job):
+                    k, L = job
+                    rc, out, err, wd = common.run_script(ctx, "\n".join(L) + "\n", timeout=120)
+                    import shutil
+                    shutil.rmtree(wd, ignore_errors=True)
+                    return rc, out
+                for (k, L), (rc, out) in zip(jobs, common.pmap(one, jobs)):
+                    res = common.parse_results(out)
+                    ctx.count(("seek-then-modify", flav, size, target, k))
+                    ctx.bump("fault:seek-then-modify")
+                    inp = {"flavour": flav, "size": size, "seek_target": target, "then": what, "fault": "read #%d of the seek call (transient)" % k, "script": L}
+                    if rc != 0:
+                        ctx.fail("crash", "crash / invalid access (exit %d) after an injected device read failure during a seek" % rc, inp, actual=out[-2:])
+                        continue
+                    sk = (res.get(len(base) + 3) or ["?"])[-1]
+                    got = (res.get(len(base) + 8) or ["?"])[-1]
+                    if not sk.startswith("ok"):
+                        ctx.bump("fault:seek-then-modify:seek-refused")
+                        continue          # the seek reported the failure: what the caller does then is its business
+                    if common.kv(sk)[1] != common.kv(wseek)[1]:
+                        ctx.fail("oracle", "a seek hit by a transient read failure reports success with another position / size than the fault-free seek", inp, expected=wseek, actual=sk)
+                        continue
+                    if common.kv(got)[1] != common.kv(want)[1]:
+                        ctx.fail("oracle", "after a seek that reported success under a transient device read failure, modifying the file at that position (%s) and reading it "
+                                           "back gives other content than the fault-free run: data that was not being modified is not read back correctly" % what,
+                                 inp, expected=want, actual=got)
+                if len(ctx.failures) > 6:
+                    return
+
+
 def run(ctx):
     proof = common.proof_status(ctx)
     # call-level correspondence of the handle model the C19_read_returns_only_true_bytes theorem is about, with unreadable blocks in every
@@ -240,6 +300,8 @@ def run(ctx):
                 break
         if len(ctx.failures) > 6:
             break
+    if len(ctx.failures) <= 6:
+        seek_then_modify(ctx)
     rule = ("base volume with a 75-block file and a small file in a subdirectory; target groups: sequential/positioned reads across block and extension boundaries, "
             "listings and lookups (hash and cache), overwrite, create, mkdir/delete/move, truncate/comment; for each call of a group one run per device read and per "
             "device write it performs with exactly that transfer failing (all of them, all six flavours, both tiers); distinct = (flavour, group, call, transfer)")
